@@ -17,6 +17,52 @@ import (
 
 func init() { register("C04", checkC04) }
 
+// ruleKeyIdentClassified: in evalPrimeExpr (and the helpers it is split into) an identifier used as a dictionary key is
+// classified by MatchIDType before its literal is taken (a malformed number-like identifier is an error there too)
+func ruleKeyIdentClassified(c *Ctx, u *Universe) {
+	R := c.R
+	g := u.ssaFunc("pkg/exec", "evalPrimeExpr")
+	if g == nil {
+		R.lost("C04.keys", "pkg/exec.evalPrimeExpr")
+		return
+	}
+	n, ok := 0, true
+	for _, h := range family(g, 1) {
+		if h.Pkg != g.Pkg {
+			continue
+		}
+		// only functions that build dictionaries
+		if len(u.callsNamed(h, "pkg/value.NewHashMap")) == 0 {
+			continue
+		}
+		for _, in := range instrsOf(h) {
+			call, isCall := in.(*ssa.Call)
+			if !isCall || !strings.HasSuffix(u.callName(call), ".GetLiteral") || len(call.Call.Args) == 0 {
+				continue
+			}
+			// the receiver: the *syntax.ID itself or its embedded literal part
+			recv := call.Call.Args[0]
+			if fa, isFA := recv.(*ssa.FieldAddr); isFA {
+				recv = fa.X
+			}
+			if !namedTypeIs(recv.Type(), "pkg/syntax", "ID") {
+				continue
+			}
+			n++
+			classified := false
+			for _, mc := range u.callsNamed(h, "pkg/exec.MatchIDType", "pkg/exec.MatchIDName", "pkg/exec.MatchIDNumber") {
+				if mi, isI := mc.(ssa.Instruction); isI && mc.Common().Args[0] == recv && dominatesInstr(mi, in) {
+					classified = true
+				}
+			}
+			if !classified {
+				ok = false
+			}
+		}
+	}
+	R.check(ok && n >= 1, "C04.keys", "pkg/exec.evalPrimeExpr:dictionary-key-identifiers", u.pos(g.Pos()), "an identifier used as a dictionary key is classified (name / number / malformed) before its text becomes the key", "the identifier of a dictionary key is used without being classified by MatchIDType: an identifier that starts like a number but is malformed (12kg, 2.3.5, 15.) is accepted as a key instead of being rejected")
+}
+
 func loadTable(c *Ctx, name string, v any) bool {
 	b, err := os.ReadFile(filepath.Join(c.Verif, "tables", name))
 	if err != nil {
@@ -1189,6 +1235,7 @@ func loopBlock(b *ssa.BasicBlock) bool {
 
 func checkC04(c *Ctx) {
 	R := c.R
+	defer func() { ruleKeyIdentClassified(c, c.Core()) }()
 	R.Explain = "Decided: (C04.dfa) the numeric-literal recogniser's transition table is extracted from tryParseNumber's switch skeleton by constant propagation and proved " +
 		"equivalent, on ALL strings (exhaustive product-automaton search), to the documented form [+-]?D+(.D+)?((e|E)[+-]D+|*(10)?^[+-]?D+)? with the NAME/ERROR split; " +
 		"(C04.num2float) both exponent spellings are rewritten to e before strconv.ParseFloat in every conversion site; (C04.trie) every keyword of the manual's table is cut out " +
